@@ -180,6 +180,19 @@ def gen_sigs(tier):
                     for tr in (None, [LONG, DOUBLE]):
                         gf = [LONG if i % 2 else INT for i in range(g)]
                         sigs.append(Sig(nm + gf + [DOUBLE] * s + [t] + (tr or []), INT, len(nm) + g + s, "V", nnamed=len(nm)))
+    # V2: variadic callees returning every class (hidden pointer is a named GP register)
+    for r in (DOUBLE, LDOUBLE, S(L, D), S(L, L, L), S(LD)):
+        for t in (LONG, DOUBLE, S(L, D)):
+            for g in vgs:
+                for s in ss:
+                    gf = [LONG if i % 2 else INT for i in range(g)]
+                    sigs.append(Sig([INT] + gf + [DOUBLE] * s + [t, LONG, DOUBLE], r, 1 + g + s, "V", nnamed=1))
+    # K: callee declared without a prototype at the call site (arguments already of promoted types)
+    for t in [INT, LONG, DOUBLE, PTR, LDOUBLE, S(L, L), S(D, D), S(L, D), S(F, F, F), S(C), S(L, L, L), S(LD)]:
+        for g in (0, 5, 6, 7):
+            for s in (0, 7, 8, 9):
+                for r in (INT, S(L, L, L)):
+                    sigs.append(Sig([LONG] * g + [DOUBLE] * s + [t, LONG, DOUBLE], r, g + s, "K", ctx="noproto"))
     # W: the va_list of a variadic callee is handed to a function built by the other compiler (vprintf-style)
     for nm in ([INT], [DOUBLE], [LONG, DOUBLE]):
         for t in [INT, LONG, DOUBLE, PTR, LDOUBLE, S(L, L), S(D, D), S(L, D), S(L, L, L)]:
@@ -286,7 +299,7 @@ def build_batch(sigs):
                 stmt = "%s = %s;" % (sink, e)
             else:
                 stmt = asg + ";"
-            b.append("%s %s(e_%d)(%s);" % (rt, which, n, proto))
+            b.append("%s %s(e_%d)(%s);" % (rt, which, n, "" if sg.ctx == "noproto" else proto))
             b.append("void FN(%s_%d)(void) { %s }" % ("r" if which == "OTHER" else "s", n, stmt))
         body.append("\n".join(b))
         sink = dsink = 0
@@ -296,7 +309,7 @@ def build_batch(sigs):
             if m.group(1): dsink = 1.0 + sum([0.5, 0.25, 0.125][:k])
             else: sink = 1 + sum([10, 100, 1000][:k])
         _, _, nvec = abi.assign(sg.args, sg.ret)
-        rows.append("{%d,%d,%d,%d,%d,%d,%d,%s,{%s}}" % (len(at), tid[sg.ret] if sg.ret else -1, nvec, 1 if var else 0, nid,
+        rows.append("{%d,%d,%d,%d,%d,%d,%d,%s,{%s}}" % (len(at), tid[sg.ret] if sg.ret else -1, nvec, 1 if var or sg.ctx == "noproto" else 0, nid,
                                                         1 if abi.ret_where(sg.ret) == "memory" else 0, sink, repr(dsink),
                                                      ",".join(str(tid[a]) for a in sg.args) or "0"))
         calls.append("{cc_r_%d,ref_r_%d,cc_s_%d,ref_s_%d}" % (n, n, n, n))
@@ -481,7 +494,7 @@ def classify_failure(sg, cfg, d):
     if sg.ctx == "vfwdO":
         direction += ",va_list:" + ("gcc->cc" if cfg in (0, 3) else "cc->gcc")
     kind = "fixed" if sg.nnamed is None else "variadic"
-    ctx = "" if sg.ctx == "plain" else "|ctx=%s" % ("inner-call-as-argument" if sg.ctx[0] == "A" else "va_list-forwarded" if sg.ctx[0] == "v"
+    ctx = "" if sg.ctx == "plain" else "|ctx=%s" % ("inner-call-as-argument" if sg.ctx[0] == "A" else "va_list-forwarded" if sg.ctx[0] == "v" else "no-prototype" if sg.ctx[0] == "n"
                                                     else "pending-temporaries")
     if "crash" in d:
         what, dev = "probe:" + arg_label(sg, min(sg.probe, len(sg.args) - 1)) if sg.args else "no-args", "crash:" + SIGNAME.get(d["crash"], d["crash"])
@@ -496,7 +509,10 @@ def classify_failure(sg, cfg, d):
         if bad & 0x400: devs.append("mxcsr-changed")
         if bad & 0x800: devs.append("x87cw-changed")
         if bad & 0x1200: devs.append("DF-set")
-        what, dev = "probe:" + (arg_label(sg, min(sg.probe, len(sg.args) - 1)) if sg.args else "no-args"), ",".join(devs)
+        what = "callee-state"
+        if bad & 0x100:      # alignment depends on how many eightbytes travel on the stack
+            what = "probe:" + (arg_label(sg, min(sg.probe, len(sg.args) - 1)) if sg.args else "no-args") + ",ret:" + abi.class_pattern(sg.ret)
+        dev = ",".join(devs)
     elif "arg" in d:
         k = int(d["arg"].split("@")[0])
         what, dev = "arg:" + arg_label(sg, k), "arg-bytes-differ"
@@ -725,7 +741,8 @@ def run(ctx):
                      "g GP fillers x s SSE fillers x trailing primitive; B2: probe first / interleaved fillers; C: every return class x g x s x struct arg; "
                      "D: pairs of aggregate probes; V: variadic callees (named prefix of 1-2 incl. struct/long double/MEMORY struct) x va_arg of "
                      "int,long,double,pointer,long double,structs; X: call nested under 1-3 pending long/double temporaries on either side "
-                     "and with argument 0/probe/last produced by an inner call; G: narrow return values / parameters with noise in undefined bits"
+                     "and with argument 0/probe/last produced by an inner call; K: callee declared without prototype at the call site; "
+                     "W: va_list handed to a function built by the other compiler; G: narrow return values / parameters with noise in undefined bits"
                      % (2 if ctx.tier == "quick" else 4, len(NAMED), len(BIG), len(X87), len(PRIMS) + nreps + 5))
     for sg in (sigs[0], sigs[len(sigs) // 3], sigs[2 * len(sigs) // 3], sigs[-1]):
         ctx.sample({"signature": sg.cid, "prototype": proto_text(sg)})
